@@ -1,5 +1,6 @@
 import FastgoModel.Props.C10
 import FastgoModel.Proofs.TokenCheck
+import FastgoModel.Proofs.BlockFrame
 /-!
 # C01 — compress then decompress returns the input, for every call pattern
 
@@ -21,6 +22,15 @@ boundary) — nothing is missing and nothing follows.
 acceleration level — satisfies the equation of `Sound.gen` for that call, with `resolve := resolveR` (real tokens
 executed the way an inflater executes them; `resolveR_nil`, `resolveR_app` are the two laws `Sound` asks of it), for
 ANY history in front of the buffer. So `Sound.gen` is not only assumed: it is checked call by call with a proved check.
+
+`C01_block_frame` (= `inflateBlock_frame`): the specification inflater is prefix-stable — a block that decodes completely on
+its own bits (its declared Huffman codes being prefix-free, a decidable condition) decodes to the same output
+whatever bits follow it and whatever was decoded before it statistics-wise. `C01_checked_block_meets_contract`
+(= `checkEnc_gives_enc`): a call of a block encoder that passes the executable check `checkEnc` — which the `E`
+correspondence applies to EVERY block the real encoders emit (Huffman code generation, dynamic header, token / byte
+packing in Go, AVX2 or AVX-512, bit buffer; dynamic and Huffman-only compressor; every acceleration level) — satisfies
+the `enc` clause of `Sound` / `HSound` for that call. So both halves of the leaf contract are checked call by call
+with proved checks; what remains assumed is only that the calls the harness did not generate behave like the ones it did.
 
 Scope of the theorems: the dynamic compressor (levels 1, 2, default; both windows — `Cfg.window` is a parameter)
 given leaves that meet `Sound`, and the Huffman-only compressor given a block encoder that meets `HSound`. Decided by the harness oracle only (see evidence): that the Go/assembly leaves
@@ -67,6 +77,20 @@ theorem C01_checked_call_meets_contract (window : Nat) (pre buf : List UInt8) (i
     ∀ t ∈ toks, t.inWindow window :=
   checkGen_gives_gen window pre buf idx nIdx toks hn hc
 
+theorem C01_block_frame (mode : Mode) (pos : Nat) (B : Bits) (h : Array UInt8) (st : Stats)
+    (final : Bool) (o : Array UInt8) (r : Bits) (s : Stats) (hpf : blockCodesPF mode B = true)
+    (hb : inflateBlock mode pos B h st = .next final o r s) (t : Bits) (st' : Stats) :
+    ∃ s', inflateBlock mode pos (B ++ t) h st' = .next final o (r ++ t) s' :=
+  inflateBlock_frame mode pos B h st final o r s hpf hb t st'
+
+theorem C01_checked_block_meets_contract (mode : Mode) (pos : Nat) (carry : Bits) (out : List UInt8) (carry' : Bits)
+    (final : Bool) (h : Array UInt8) (x : List UInt8) (hc : checkEnc mode pos carry out carry' final h x = true) :
+    ∃ B, IsBlock mode pos B final h x ∧
+      (final = false → bytesToBits out ++ carry' = carry ++ B) ∧
+      (final = true → carry' = [] ∧
+        bytesToBits out = carry ++ B ++ List.replicate (padLen (carry ++ B).length) false) :=
+  checkEnc_gives_enc mode pos carry out carry' final h x hc
+
 /-- every accepted Write reports the full length on a healthy destination unless it stopped for lack of
     progress — the data the theorem speaks about is what the caller was told was accepted -/
 theorem C01_data_is_what_was_accepted (D : List UInt8) (data : List UInt8) (r : OpRes) (h : r.n = data.length) :
@@ -92,8 +116,20 @@ example :
     isDoneWith (inflate .strict [] (hClose fixHuff exHuff.1).1.dst.bytes) (exData.take 37) = true := by
   decide +kernel
 
+/-! Non-vacuity of the block check: the bytes fastgo itself emits (level 1, `Write("abcabcabcabc"); Close()`, one final
+    dynamic block with a back-reference; level -2, `Write("hello"); Close()`) pass `checkEnc` — evaluated by the kernel. -/
+def realDyn : List UInt8 := [0x35,0xc2,0x31,0x0d,0x00,0x00,0x00,0x83,0x30,0xad,0x1b,0xfe,0x3d,0x70,0x91,0x74,0x27,0x08]
+def realHuff : List UInt8 := [0x05,0xc0,0xb1,0x09,0x00,0x00,0x00,0x83,0xb0,0x6b,0x0b,0x1d,0x04,0xff,0xdf,0xcc,0x07,0x06]
+
+example : checkEnc .strict 0 [] realDyn [] true #[] "abcabcabcabc".toUTF8.toList = true ∧
+    checkEnc .strict 0 [] realHuff [] true #[] "hello".toUTF8.toList = true ∧
+    checkEnc .strict 0 [] realHuff [] true #[] "hellp".toUTF8.toList = false := by
+  decide +kernel
+
 end Fastgo.Writer
 
+#print axioms Fastgo.Writer.C01_block_frame
+#print axioms Fastgo.Writer.C01_checked_block_meets_contract
 #print axioms Fastgo.Writer.C01_roundtrip_dyn
 #print axioms Fastgo.Writer.C01_empty
 #print axioms Fastgo.Writer.C01_roundtrip_huff
